@@ -12,15 +12,7 @@ namespace Ymq.Drv
 open Ymq.EcmCurve Ymq.Gen.Curves Ymq.Chain
 
 /-- `Curve { zn, twisted, d, .. }` as point operations -/
-def znOps (n : Nat) (tw : Bool) (d : Zn n) : Ops (Pt (Zn n)) (Ext (Zn n)) where
-  zero := ⟨0, 1, 1⟩
-  toExt := ecmToExtended d tw
-  toProj := Ext.toProj
-  double := ecmDouble d tw
-  dblext := ecmDblext d tw
-  addext := ecmAddext d tw
-  addp := ecmAddextproj d tw
-  subp := ecmSubextproj d tw
+def znOps (n : Nat) (tw : Bool) (d : Zn n) : Ops (Pt (Zn n)) (Ext (Zn n)) := curveOps d tw
 
 def znEnv (n : Nat) (tw : Bool) (d : Zn n) : Env (Pt (Zn n)) (Ext (Zn n)) (Zn n) where
   ops := znOps n tw d
